@@ -167,11 +167,16 @@ fn compound(src: &mut Src, st: &mut Stats, _env: &Env) -> CaseResult {
     let dt = doc.to_json();
     let kind = if near.is_some() {
         st.class("near-equal-numbers");
-        if src.flip() { 6 } else { 2 }
+        match src.below(3) {
+            0 => 6,
+            1 => 2,
+            _ => 0,
+        }
     } else {
         src.below(12)
     };
-    let l = match if near.is_some() { Some("xs".to_string()) } else { part(src, st, Some(&doc), 3) } {
+    let near_l = if kind == 0 { *src.pick(&["xs[*].n", "xs", "xs[0].n", "xs[-1]", "xs[?id > `0`].n", "[xs[0].n, xs[1].n]"]) } else { "xs" };
+    let l = match if near.is_some() { Some(near_l.to_string()) } else { part(src, st, Some(&doc), 3) } {
         Some(x) => x,
         None => {
             st.discard();
@@ -179,7 +184,7 @@ fn compound(src: &mut Src, st: &mut Stats, _env: &Env) -> CaseResult {
         }
     };
     // for pipes: often a left side that ENDS in a bare projection over mixed data
-    let l = if kind == 0 && src.chance(90) {
+    let l = if kind == 0 && near.is_none() && src.chance(90) {
         // partial functions: defined on some element types only, so a projection over mixed
         // data fails at the first element outside the domain (wherever it is)
         let partial = *src.pick(&["abs(@)", "length(@)", "keys(@)", "ceil(@)", "sort(@)", "max(@)", "starts_with(@, 'a')", "join(',', @)", "a.abs(@)", "not_null(a, @).length(@)", "reverse(@)", "values(@)", "sum(@)"]);
@@ -210,6 +215,11 @@ fn compound(src: &mut Src, st: &mut Stats, _env: &Env) -> CaseResult {
             // pipe; the right side is often a projection that calls a function on each element
             let r = if src.chance(80) {
                 src.pick(&[
+                    "@",
+                    "to_string(@)",
+                    "[*].to_string(@)",
+                    "[?@ > `0.3`]",
+                    "[@, @]",
                     "[0]",
                     "[1]",
                     "[2]",
@@ -243,6 +253,27 @@ fn compound(src: &mut Src, st: &mut Stats, _env: &Env) -> CaseResult {
             };
             if !same(&got, &want) {
                 return Err(fail("pipe-not-compositional", &c, &dt, &got, &want, json!({"L": l, "R": r, "L_result": show(&lv)})));
+            }
+            // "searching R on the result of searching L", literally: the value that the first
+            // search returned is handed to the second search as it is (no JSON text in between)
+            if lj.is_some() {
+                for (i, o) in crate::imp::search_chain(&l, &r, &dt).into_iter().enumerate() {
+                    let o2 = match o {
+                        ImpOut::Ok(j) => Out::Val(j),
+                        ImpOut::SearchErr(e) => Out::Err(e.class),
+                        other => return Err(harness_err(other.brief(), &c, &dt)),
+                    };
+                    let exact = match (&got, &o2) {
+                        (Out::Val(x), Out::Val(y)) => x.exact_eq(y),
+                        (Out::Err(_), Out::Err(_)) => true,
+                        _ => false,
+                    };
+                    if !exact {
+                        let route = ["Rcvar by value", "&Rcvar", "Variable by value", "&Variable"][i.min(3)];
+                        return Err(fail("pipe-not-compositional", &c, &dt, &got, &o2, json!({"L": l, "R": r, "second_search_input": route})));
+                    }
+                }
+                st.class("pipe:result-fed-back-as-value");
             }
             nontrivial = matches!(&lj, Some(J::Arr(_)) | Some(J::Obj(_)));
             st.class("form:pipe");
